@@ -65,6 +65,52 @@ fn report_failure(args: &Args, rep: &mut Report, ast: &OpeningHoursExpression, h
 
 pub fn run(args: &Args, rep: &mut Report) {
     let n = args.cases(480_000, 4_000_000);
+    // size family shared with C07: K pairwise different rules and a late overlapping one
+    {
+        let mut ks: Vec<usize> = (1..=64).collect();
+        for e in 7..=12 {
+            ks.extend([(1usize << e) - 1, 1 << e, (1 << e) + 1]);
+        }
+        let mut idx = 0u64;
+        for k in ks {
+            for variant in 0..3u64 {
+                // the second pass runs on a normal form joined by ';', whose paving grows with every
+                // rule (9 s at 513 rules, 53 s at 1025): quick stops at 257 (129 for the ';' variants),
+                // thorough at 2049 (1025); C07 climbs to 4097 with the cheap variant
+                let top = match (args.thorough(), variant) {
+                    (false, 0) => 257,
+                    (false, _) => 129,
+                    (true, 0) => 2049,
+                    (true, _) => 1025,
+                };
+                if k > top {
+                    continue;
+                }
+                idx += 1;
+                if (idx - 1) % args.of.max(1) != args.worker {
+                    continue;
+                }
+                let text = super::c07::many_rules_text(k, variant);
+                let Ok(ast) = lib_parse(&text) else { continue };
+                rep.evaluations += 1;
+                rep.begin(&format!("many rules: K = {k}, variant {variant}"));
+                let mut r = Rng::new(args.seed, 0x512e, idx);
+                match check(&ast, &HolSpec::None, &mut r) {
+                    Ok(_) => {
+                        rep.count("many_rules_expressions");
+                        rep.max("many_rules_max_rules", k as u64 + 1);
+                    }
+                    Err(msg) => {
+                        let short: String = msg.chars().take(600).collect();
+                        rep.violation("normalization_idempotence", format!("{} rules (size family K = {k}, variant {variant}): {short}", k + 1), json!({"expr": text, "holidays": "none"}), None);
+                        if rep.full() {
+                            return;
+                        }
+                    }
+                }
+            }
+        }
+    }
     // combination grid: pairs / triples of canonical rules over plain and wrapping ranges
     for (i, text) in normalize_grid(args.thorough(), args.seed + 1).iter().enumerate() {
         if (i as u64) % args.of.max(1) != args.worker {
